@@ -179,8 +179,22 @@ fn lexprop(c: &Value) -> Value {
                     let p = if matches!(&t.token, Token::TripleSingleQuotedString(_) | Token::TripleDoubleQuotedString(_)) { 0 } else { 1 };
                     sc.len() >= p + 6 && (unescape || sc[p + 3..sc.len() - 3].iter().collect::<String>() == *b)
                 }
-                Token::EscapedStringLiteral(_) => { let lc = slice.to_lowercase(); lc.starts_with("e'") && slice.ends_with('\'') }
-                Token::UnicodeStringLiteral(_) => { let lc = slice.to_lowercase(); lc.starts_with("u&'") && slice.ends_with('\'') }
+                Token::EscapedStringLiteral(b) => {
+                    let lc = slice.to_lowercase();
+                    let shape = lc.starts_with("e'") && slice.ends_with('\'') && slice.chars().count() >= 3;
+                    if shape && !unescape && slice[2..slice.len() - 1] != **b {
+                        problems.push(format!("rawbody:escaped token {} E'..' body is not the source text {:?} with un-escaping off", i, slice));
+                    }
+                    shape
+                }
+                Token::UnicodeStringLiteral(b) => {
+                    let lc = slice.to_lowercase();
+                    let shape = lc.starts_with("u&'") && slice.ends_with('\'') && slice.chars().count() >= 4;
+                    if shape && !unescape && slice[3..slice.len() - 1] != **b {
+                        problems.push(format!("rawbody:unicode token {} U&'..' body is not the source text {:?} with un-escaping off", i, slice));
+                    }
+                    shape
+                }
                 Token::DollarQuotedString(dq) => {
                     let tag = dq.tag.clone().unwrap_or_default();
                     slice == format!("${tag}${}${tag}$", dq.value)
@@ -314,6 +328,104 @@ fn literal(c: &Value) -> Value {
     r.unwrap_or_else(|e| json!({"panic": panic_msg(e)}))
 }
 
+/// C20 at statement level: raw-mode bodies survive parse -> print; both modes give the same shape.
+fn literal_tokens(d: &dyn sqlparser::dialect::Dialect, sql: &str) -> Option<Vec<String>> {
+    let toks = tokenize_loc(d, sql, false).ok()?;
+    let chars: Vec<char> = sql.chars().collect();
+    let offs = token_offsets(sql, &toks);
+    let mut v = vec![];
+    for (i, t) in toks.iter().enumerate() {
+        match &t.token {
+            // these two kinds have no raw branch in the tokenizer: take the body from the source text
+            Token::EscapedStringLiteral(_) | Token::UnicodeStringLiteral(_)
+                if offs[i] != usize::MAX && offs[i] < offs[i + 1] && offs[i + 1] <= chars.len() => {
+                let slice: String = chars[offs[i]..offs[i + 1]].iter().collect();
+                let skip = if matches!(&t.token, Token::EscapedStringLiteral(_)) { 2 } else { 3 };
+                let body: String = slice.chars().skip(skip).take(slice.chars().count().saturating_sub(skip + 1)).collect();
+                v.push(format!("{}:{}", if skip == 2 { "KEscaped" } else { "KUnicode" }, body));
+            }
+            Token::Word(w) if w.quote_style.is_some() => v.push(format!("W{}:{}", w.quote_style.unwrap(), w.value)),
+            Token::Whitespace(_) | Token::Word(_) => {}
+            other => {
+                let j = tok_json(other);
+                if j["k"] == "Str" { v.push(format!("{}:{}", j["kind"].as_str().unwrap(), j["s"].as_str().unwrap())); }
+                if j["k"] == "Dollar" { v.push(format!("Dollar:{}:{}", j["tag"], j["v"].as_str().unwrap())); }
+            }
+        }
+    }
+    v.sort();
+    Some(v)
+}
+
+const LITERAL_KEYS: [&str; 24] = ["value", "SingleQuotedString", "DoubleQuotedString", "TripleSingleQuotedString", "TripleDoubleQuotedString",
+    "EscapedStringLiteral", "UnicodeStringLiteral", "SingleQuotedByteStringLiteral", "DoubleQuotedByteStringLiteral",
+    "TripleSingleQuotedByteStringLiteral", "TripleDoubleQuotedByteStringLiteral", "SingleQuotedRawStringLiteral",
+    "DoubleQuotedRawStringLiteral", "TripleSingleQuotedRawStringLiteral", "TripleDoubleQuotedRawStringLiteral",
+    "NationalStringLiteral", "HexStringLiteral", "DollarQuotedString", "String", "comment", "Comment", "text", "pattern", "escape_char"];
+
+fn shape_diff(a: &Value, b: &Value, path: &mut Vec<String>, out: &mut Vec<String>) {
+    match (a, b) {
+        (Value::Object(x), Value::Object(y)) => {
+            if x.keys().ne(y.keys()) { out.push(format!("{}: different keys", path.join("/"))); return; }
+            for (k, v) in x { path.push(k.clone()); shape_diff(v, &y[k], path, out); path.pop(); }
+        }
+        (Value::Array(x), Value::Array(y)) => {
+            if x.len() != y.len() { out.push(format!("{}: different lengths", path.join("/"))); return; }
+            for (i, (v, w)) in x.iter().zip(y).enumerate() { path.push(i.to_string()); shape_diff(v, w, path, out); path.pop(); }
+        }
+        (Value::String(x), Value::String(y)) => {
+            if x != y {
+                let allowed = path.iter().rev().take(3).any(|k| LITERAL_KEYS.contains(&k.as_str()));
+                if !allowed { out.push(format!("{}: {:?} vs {:?}", path.join("/"), x, y)); }
+            }
+        }
+        _ => { if a != b { out.push(format!("{}: {} vs {}", path.join("/"), a, b)); } }
+    }
+}
+
+fn rawmode(c: &Value) -> Value {
+    let d = dialect_by_name(c["dialect"].as_str().unwrap());
+    let sql = c["sql"].as_str().unwrap();
+    let r = std::panic::catch_unwind(std::panic::AssertUnwindSafe(|| {
+        let raw = parse_opts(d.as_ref(), sql, false, false, None);
+        let cooked = parse_opts(d.as_ref(), sql, true, false, None);
+        let mut problems: Vec<String> = vec![];
+        let mut bodies_problem: Option<Value> = None;
+        let mut nlit = 0;
+        if let Ok(stmts) = &raw {
+            let printed = stmts.iter().map(|s| s.to_string()).collect::<Vec<_>>().join("; ");
+            match (literal_tokens(d.as_ref(), sql), literal_tokens(d.as_ref(), &printed)) {
+                (Some(a), Some(b)) => {
+                    nlit = a.len();
+                    // every body in the printed text must be one of the source bodies (bodies only:
+                    // a literal the parser dropped or re-quoted is C05's business, not C20's)
+                    let body = |x: &String| x.splitn(2, ':').nth(1).unwrap_or("").to_string();
+                    let mut src: Vec<String> = a.iter().map(body).collect();
+                    let mut extra: Vec<String> = vec![];
+                    for x in &b {
+                        let bx = body(x);
+                        if let Some(pos) = src.iter().position(|y| *y == bx) { src.remove(pos); } else { extra.push(x.clone()); }
+                    }
+                    if !extra.is_empty() {
+                        bodies_problem = Some(json!({"printed_not_in_source": extra, "source": a, "printed_text": printed}));
+                    }
+                }
+                (Some(_), None) => bodies_problem = Some(json!({"printed_text_does_not_tokenize": printed})),
+                _ => {}
+            }
+        }
+        if let (Ok(x), Ok(y)) = (&raw, &cooked) {
+            let (jx, jy) = (serde_json::to_value(x).unwrap(), serde_json::to_value(y).unwrap());
+            let mut out = vec![];
+            shape_diff(&jx, &jy, &mut vec![], &mut out);
+            for o in out.into_iter().take(3) { problems.push(format!("shape:{o}")); }
+        }
+        json!({"status": if problems.is_empty() && bodies_problem.is_none() {"ok"} else {"bad"}, "problems": problems, "bodies": bodies_problem,
+               "raw_ok": raw.is_ok(), "cooked_ok": cooked.is_ok(), "literals": nlit})
+    }));
+    r.unwrap_or_else(|e| json!({"status":"panic","problems":[panic_msg(e)]}))
+}
+
 fn lex(c: &Value) -> Value {
     let d = dialect_by_name(c["dialect"].as_str().unwrap());
     lex_outcome(d.as_ref(), c["sql"].as_str().unwrap(), c["unescape"].as_bool().unwrap_or(true))
@@ -329,6 +441,7 @@ fn main() {
         "lex" => for_each_case(lex),
         "lexprop" => for_each_case(lexprop),
         "literal" => for_each_case(literal),
+        "rawmode" => for_each_case(rawmode),
         "wsvariant" => for_each_case(wsvariant),
         _ => {
             eprintln!("usage: drive make_word < cases.jsonl");
